@@ -141,6 +141,10 @@ func waitAgree(c *cdi.Cache, l *layout.Layout, bound time.Duration) string {
 	}
 }
 
+func regularKind(k string) bool {
+	return k == layout.Valid || k == layout.BadSyntax || k == layout.BadSemantic || k == layout.Empty
+}
+
 func propC01(rec *stats.Rec, sc *scratch, auto bool) func(t *rapid.T) {
 	return func(t *rapid.T) {
 		root := sc.dir()
@@ -159,6 +163,7 @@ func propC01(rec *stats.Rec, sc *scratch, auto bool) func(t *rapid.T) {
 		}
 		step := 0
 		mutated := "initial"
+		var extraLabels []string
 		check := func(t *rapid.T) {
 			var msg string
 			if auto {
@@ -173,6 +178,8 @@ func propC01(rec *stats.Rec, sc *scratch, auto bool) func(t *rapid.T) {
 			}
 			labels, nontriv := layoutLabels(l, r)
 			labels = append(labels, "after:"+strings.SplitN(mutated, " ", 2)[0])
+			labels = append(labels, extraLabels...)
+			extraLabels = nil
 			rec.Case(nontriv, canonJSON(l.Describe()), func() any { return map[string]any{"auto": auto, "step": step, "last": mutated, "layout": l.Describe()} }, labels...)
 			step++
 		}
@@ -233,6 +240,51 @@ func propC01(rec *stats.Rec, sc *scratch, auto bool) func(t *rapid.T) {
 				}
 				mutated = fmt.Sprintf("removeFile %s/%s", l.Pool[c.d].Name, c.n)
 			},
+		}
+		// an existing regular Spec file rewritten in place (truncate and write, what an editor or a shell redirection
+		// does: write events only), half of the time the file rewritten last
+		lastRewritten := [2]any{-1, ""}
+		actions["rewriteInPlace"] = func(t *rapid.T) {
+			type cand struct {
+				d int
+				n string
+			}
+			var cands []cand
+			for _, d := range existing() {
+				for _, n := range l.Pool[d].SortedFileNames() {
+					if f := l.Pool[d].Files[n]; layout.IsSpecName(n) && f.Link == "" && regularKind(f.Kind) {
+						cands = append(cands, cand{d, n})
+					}
+				}
+			}
+			if len(cands) == 0 {
+				t.Skip("no regular Spec file")
+			}
+			c := rapid.SampledFrom(cands).Draw(t, "file")
+			if rapid.Bool().Draw(t, "sameAsLast") {
+				for _, k := range cands {
+					if k.d == lastRewritten[0] && k.n == lastRewritten[1] {
+						c = k
+					}
+				}
+			}
+			var f *layout.File
+			if rapid.IntRange(0, 3).Draw(t, "invalid") == 0 {
+				f = l.NewInvalidFile(t, "rw", l.Pool[c.d].Name, c.n)
+			} else {
+				f = l.NewValidFile(t, "rw", l.Pool[c.d].Name, c.n, nil, "", nil)
+			}
+			if f.Link != "" || !regularKind(f.Kind) {
+				t.Skip("not a regular file")
+			}
+			if err := l.PutFileInPlace(c.d, f); err != nil {
+				t.Skip(err.Error())
+			}
+			if lastRewritten[0] == c.d && lastRewritten[1] == c.n {
+				extraLabels = append(extraLabels, "same-file-rewritten-in-place-twice-in-a-row")
+			}
+			lastRewritten = [2]any{c.d, c.n}
+			mutated = fmt.Sprintf("rewriteInPlace %s/%s", l.Pool[c.d].Name, c.n)
 		}
 		// a Spec file renamed to a name the scan ignores (x.json -> x.json.disabled), or moved out of the directory:
 		// the only event is a rename event carrying the old name
